@@ -76,7 +76,8 @@ AssignLikeAfterOperator(sh) == \E i \in 2..Len(sh.segs) : HasAssignLike(sh.segs[
 
 \* a backslash continuation inside a segment of a chain that sits in an indented block: the logical
 \* line is re-assembled and wrapped on its own, and the result drops or repeats commands
-ContinuationChainInBlock(sh) == Len(sh.segs) >= 2 /\ sh.pos.blocks # <<>> /\ \E i \in 1..Len(sh.segs) : sh.segs[i].cont > 0
+\* (also seen at top level after `stmt;`; the enabling condition is the continuation inside a chain)
+ContinuationChainInBlock(sh) == Len(sh.segs) >= 2 /\ \E i \in 1..Len(sh.segs) : sh.segs[i].cont > 0
 
 (* ---- actions ----------------------------------------------------------------------------- *)
 Init == shape = [segs |-> <<>>, ops |-> <<>>, pos |-> [semi |-> "none", comment |-> FALSE, blocks |-> <<>>]] /\ res = [same |-> TRUE, flagsame |-> TRUE, dev |-> ""] /\ phase = "idle"
